@@ -20,7 +20,10 @@ def main():
     signal.signal(signal.SIGALRM, _alarm)
     out = []
     sink = io.StringIO()
+    hangs = 0
     for c in cases:
+        if hangs >= 3:      # three cases did not answer: the rest of this worker's cases are not run (reported as not run, never as passing)
+            out.append({"exc": "NotRun", "msg": "not run after three cases without an answer"}); continue
         try:
             signal.setitimer(signal.ITIMER_REAL, limit)
             with contextlib.redirect_stdout(sink):
@@ -29,6 +32,7 @@ def main():
             out.append({"ok": r})
         except CaseTimeout:
             out.append({"exc": "Timeout", "msg": "no answer within %gs" % limit})
+            hangs += 1; limit = min(limit, 15.0)       # one case has already failed to answer: do not spend minutes on each further one
         except Exception as e:
             signal.setitimer(signal.ITIMER_REAL, 0)
             out.append({"exc": type(e).__name__, "msg": str(e)[:300], "tb": traceback.format_exc()[-1500:]})
